@@ -250,7 +250,23 @@ def run_history(ops, start=None):
         before = observe(rec, oids)
         exc = None
         try:
-            if o["k"] in ("set", "add"):
+            if o["k"] == "restore":
+                # store again a column OBJECT that the record already holds (col = rec[x]; col.value = ...; rec[x] = col)
+                live = [c for c in rec._MafRecord__columns_list if c is not None]
+                if live:
+                    c = live[o["slot"] % len(live)]
+                    if o.get("edit"):
+                        c.value = "edited"
+                    via = o["via"]
+                    if via == "add":
+                        rec.add(c)
+                    elif via == "name":
+                        rec[c.key] = c
+                    elif via == "int":
+                        rec[c.column_index if c.column_index is not None else 0] = c
+                    else:
+                        rec[c] = c
+            elif o["k"] in ("set", "add"):
                 c = column_of(o["col"])
                 oids[id(c)] = offset + n
                 keep.append(c)
@@ -345,6 +361,22 @@ def run(ctx):
         start, names, idxs = gen_start(rng_p)
         cases.append(([gen_typed_op(rng_p, names, idxs) if rng_p.random() < 0.5 else gen_op(rng_p, names, **({} if idxs is None else {"idxs": idxs}))
                        for _ in range(rng_p.randrange(0, 7))], start))
+    # histories that also store again an object the record already holds (implementation + oracle only: the model's
+    # columns are values, it has no notion of "the same object")
+    rng_r = ctx.rng("hist", "restore")
+    for _ in range(ctx.scale(400, 5000)):
+        h = []
+        for _k in range(rng_r.randrange(2, 9)):
+            if rng_r.random() < 0.35:
+                h.append({"k": "restore", "via": rng_r.choice(["name", "int", "col", "add"]), "slot": rng_r.randrange(6), "edit": rng_r.random() < 0.5})
+            else:
+                h.append(gen_op(rng_r))
+        out.evaluations += 1
+        steps, failures, _initial = eval_history(h, None)
+        out.failures += failures
+        out.distribution["restore-histories"] += 1
+        if sum(1 for st in steps if st["exc"] is None) >= 2:
+            out.nontrivial.add(repr(h))
     reqs = [{"op": "rec.edit", "ops": prefix_ops(start) + h} for h, start in cases]
     mo = ctx.driver.run(reqs)
     for (h, start), m in zip(cases, mo):
@@ -397,6 +429,8 @@ def show_op(o):
         return repr(k["v"]) if t in ("name", "int") else show_col(dict(k, value=None), index=False) if t == "col" else "None" if t == "none" else "3.5"
     if o["k"] == "del":
         return "del rec[%s]" % key(o["key"])
+    if o["k"] == "restore":
+        return "c = the %dth stored column object%s; store it again via %s" % (o["slot"], "; c.value = 'edited'" if o.get("edit") else "", o["via"])
     col = show_col(o["col"])
     return "rec.add(%s)" % col if o["k"] == "add" else "rec[%s] = %s" % (key(o["key"]), col)
 
@@ -414,7 +448,7 @@ def replay_case(ctx, failure):
     start = failure.get("start")
     steps, failures, initial = eval_history(h, start)
     msteps = None
-    if getattr(ctx, "driver_ok", True) and ctx.driver.available():
+    if getattr(ctx, "driver_ok", True) and ctx.driver.available() and not any(o["k"] == "restore" for o in h):
         msteps = ctx.driver.run([{"op": "rec.edit", "ops": prefix_ops(start) + h}])[0]["steps"][len(prefix_ops(start)):]
     if start:
         print("replay C15: MafRecord.from_line(%r, %s) edited by %d operation(s)" % (
